@@ -19,7 +19,7 @@ RULE = ('one descriptor = (device profile, api sync/async, trigger kind in {link
         'signature) among runs in which the trigger actually fired.')
 ASSUMPTIONS = ['link errors are reported the two ways RadioDriver does: from its own thread, or from inside send_packet '
                'in the calling thread', 'virtual-time horizon of 150 s per blocking call stands in for "bounded time"']
-REQUIRED = ['mon.attempts', 'mon.trigger_fired', 'mon.reconnects', 'mon.fault_before_first_packet',
+REQUIRED = ['mon.close_in_a_port_or_parameter_callback_of_the_application', 'mon.attempts', 'mon.trigger_fired', 'mon.reconnects', 'mon.fault_before_first_packet',
             'mon.fault_mid_setup', 'mon.fault_after_connected', 'mon.close_in_callback', 'mon.sync_api', 'mon.async_api',
             'mon.line_preempted_runs', 'mon.three_cycle_histories', 'mon.fault_during_driver_connect']
 DESC_TIMEOUT = 1500
@@ -49,7 +49,7 @@ def cases(tier, seed):
     S = 1 if tier == 'quick' else 6
     for (nlog, nparam, proto, mk) in profiles:
         for api in ('sync', 'async'):
-            for trig in ('fault_tx', 'fault_rx', 'close_main', 'close_cb', 'fault_connect'):
+            for trig in ('fault_tx', 'fault_rx', 'close_main', 'close_cb', 'fault_connect', 'close_portcb', 'close_paramcb'):
                 for reporter in (('driver', 'sender') if trig == 'fault_tx' else ('driver',)):
                     picks = scheds if tier == 'thorough' else [scheds[n % len(scheds)], scheds[(n + 2) % len(scheds)]]
                     for (pol, lp) in picks:
@@ -118,7 +118,32 @@ def one_run(desc, k, sseed, calibrate=False):
                     ob.events.append((1, 'close_call', s.now, 'cb', ()))
                     cf.close_link()
                     ob.events.append((1, 'close_ret', s.now, 'cb', ()))
+        def phase_now():
+            seen = [e[1] for e in ob.events if e[0] == attempt['n'] and e[1] in LIFE]
+            return seen[-1] if seen else 'requested'
         rec = harness.Recorder(cf, on_event=on_event)   # noqa
+        if trig in ('close_portcb', 'close_paramcb') and not calibrate:
+            # the application closes the link from inside one of ITS callbacks on the dispatcher thread: a port callback
+            # registered before open_link (so it runs before the library's own, later registered, receivers of the same
+            # packet), or a parameter-update callback - at the k-th packet / update of the attempt
+            seen_n = {'n': 0}
+
+            def close_from_dispatcher(*_a):
+                if attempt['n'] != 1 or attempt['trigger_at'] is not None:
+                    return
+                seen_n['n'] += 1
+                if seen_n['n'] == k:
+                    attempt['trigger_at'] = s.now
+                    res['fired'] = True
+                    res['phase'] = phase_now()
+                    ob.events.append((1, 'close_call', s.now, 'cb', ()))
+                    cf.close_link()
+                    ob.events.append((1, 'close_ret', s.now, 'cb', ()))
+            if trig == 'close_portcb':
+                for port in (2, 4, 5, 13):
+                    cf.add_port_callback(port, close_from_dispatcher)
+            else:
+                cf.param.all_update_callback.add_callback(close_from_dispatcher)
         # --- detector for the one concurrency pattern the library does not synchronise: a disconnect
         # (link error or close_link) handled in one thread while the dispatcher thread is in the middle of
         # dispatching a received packet.
@@ -144,10 +169,6 @@ def one_run(desc, k, sseed, calibrate=False):
                 res['overlap'] = True
         spec.on_dispatch_start = on_dispatch_start
         scf = SyncCrazyflie(uri, cf=cf) if desc['api'] == 'sync' else None
-
-        def phase_now():
-            seen = [e[1] for e in ob.events if e[0] == attempt['n'] and e[1] in LIFE]
-            return seen[-1] if seen else 'requested'
 
         # ---------------- attempt 0 (optional): an earlier session of the same object that was cut short
         if desc.get('prefault') and not calibrate:
@@ -230,7 +251,7 @@ def one_run(desc, k, sseed, calibrate=False):
         except Exception as e:  # noqa
             raised = repr(e)[:200]
         ob.events.append((1, 'open_ret', s.now, 'main', (raised,)))
-        if scf is not None and raised is None and dev.params and trig != 'close_cb':
+        if scf is not None and raised is None and dev.params and trig not in ('close_cb', 'close_portcb', 'close_paramcb'):
             # bounded wait for the parameter download (wait_for_params has no timeout of its own)
             outcome.wait(60.0)
         if calibrate:
@@ -474,6 +495,10 @@ def run(desc, ctx):
             ks = list(range(1, ktx + 1))
         elif desc['trigger'] == 'fault_connect':
             ks = list(range(1, 10))
+        elif desc['trigger'] == 'close_portcb':
+            ks = list(range(1, krx + 1))
+        elif desc['trigger'] == 'close_paramcb':
+            ks = list(range(1, desc['nparam'] + 1))
         else:
             ks = [1, 2, 3]
         seeds = None
@@ -501,6 +526,8 @@ def run(desc, ctx):
                         ctx.count('mon.fault_after_connected')
                 if desc['trigger'] == 'close_cb':
                     ctx.count('mon.close_in_callback')
+                if desc['trigger'] in ('close_portcb', 'close_paramcb'):
+                    ctx.count('mon.close_in_a_port_or_parameter_callback_of_the_application')
                 if desc['trigger'] == 'fault_connect':
                     ctx.count('mon.fault_during_driver_connect')
                     if res.get('zombie_link'):
